@@ -34,12 +34,21 @@ fn static_state(i: u8) -> &'static str {
 const PEEL_BASE: &str = "[\u{3000}(\u{e9}{<\u{10428}|a|b\u{6f22}>}c) ]xyz\u{20ac}q";
 const NEST_BASE: &str = "é1€3𝄞5ü7ß9abcxyz";
 fn state_name(naming: u8, i: u8) -> String {
+    state_ref(naming, i).into_owned()
+}
+/// the state string, borrowed from a process-wide cache where there is one
+fn state_ref(naming: u8, i: u8) -> Cow<'static, str> {
     static CACHE: std::sync::OnceLock<Vec<Vec<String>>> = std::sync::OnceLock::new();
     let c = CACHE.get_or_init(|| (0..6u8).map(|n| (0..16u8).map(|i| state_name_uncached(n, i)).collect()).collect());
     if (naming as usize) < c.len() && (i as usize) < 16 {
-        return c[naming as usize][i as usize].clone();
+        return Cow::Borrowed(c[naming as usize][i as usize].as_str());
     }
-    state_name_uncached(naming, i)
+    if naming == 6 {
+        static HUGE: std::sync::OnceLock<Vec<String>> = std::sync::OnceLock::new();
+        let h = HUGE.get_or_init(|| (0..5u8).map(|i| state_name_uncached(6, i)).collect());
+        return Cow::Borrowed(h[i as usize % 5].as_str());
+    }
+    Cow::Owned(state_name_uncached(naming, i))
 }
 fn state_name_uncached(naming: u8, i: u8) -> String {
     match naming {
@@ -53,6 +62,8 @@ fn state_name_uncached(naming: u8, i: u8) -> String {
             cs[i..cs.len() - i].iter().collect()
         }
         5 => static_state(i).to_string(),
+        // 6: three short states, then two beyond 64 MiB (growth chains that end in a very large fixed point)
+        6 => "a".repeat([1usize, 2, 3, (1 << 26) + 1, (1 << 26) + 2][i as usize % 5]),
         // 4: lengths that differ by orders of magnitude (an application may grow or shrink the string enormously)
         _ => {
             const LENS: [usize; 13] = [1, 0, 40, 2000, 2, 5000, 37, 3, 700, 19, 100, 5, 64];
@@ -79,7 +90,7 @@ impl Prog {
     fn step(&self, s: &str) -> Result<String, RErr> {
         let k = self.k();
         for i in 0..k {
-            if state_name(self.naming, i) == s {
+            if state_ref(self.naming, i) == s {
                 let t = self.table[i as usize];
                 return if t < k { Ok(state_name(self.naming, t)) } else { Err(rerr(&err_of(t - k))) };
             }
@@ -100,7 +111,7 @@ pub fn check_prog(p: &Prog, l: &mut Local) -> Check {
     let f = hr(|s: &str| {
         calls.borrow_mut().push(s.to_string());
         for i in 0..k {
-            if state_name(p.naming, i) == s {
+            if state_ref(p.naming, i) == s {
                 let t = p.table[i as usize];
                 if t >= k {
                     return Err(err_of(t - k));
@@ -184,7 +195,7 @@ pub fn check_prog(p: &Prog, l: &mut Local) -> Check {
             (Err(_), _) => "error_propagated_or_invalid",
         });
         if l.want_sample() {
-            l.sample(json!({"table": p.table, "start": p.start, "calls": calls, "result": fmt_res(&got)}));
+            l.sample(json!({"table": p.table, "start": p.start, "calls": calls.iter().map(|c| if c.len() > 200 { format!("<{} bytes>", c.len()) } else { c.clone() }).collect::<Vec<_>>(), "result": fmt_res(&got).chars().take(300).collect::<String>()}));
         }
     }
     Ok(())
@@ -236,6 +247,62 @@ pub fn run(run: &Run) {
             }
         });
     }
+    // growth chains over three short states and two states beyond 64 MiB: every distinct orbit of the tables with f(i) in {i, i+1 mod 5, Err}
+    // from starts 0..=3, in the four argument forms
+    let mut chains: Vec<Prog> = Vec::new();
+    {
+        let mut seen = std::collections::HashSet::new();
+        for t in 0..243u32 {
+            for start in 0..4u8 {
+                let mut rem = t;
+                let table: Vec<u8> = (0..5u8)
+                    .map(|i| {
+                        let c = rem % 3;
+                        rem /= 3;
+                        match c {
+                            0 => i,
+                            1 => (i + 1) % 5,
+                            _ => 5 + 2,
+                        }
+                    })
+                    .collect();
+                // programs with the same orbit from the start state behave alike: keep one of each, once per argument form
+                let mut sig: Vec<(u8, u8)> = Vec::new();
+                let mut cur = start;
+                for _ in 0..6 {
+                    sig.push((cur, table[cur as usize]));
+                    if table[cur as usize] >= 5 || table[cur as usize] == cur {
+                        break;
+                    }
+                    cur = table[cur as usize];
+                }
+                for arg_form in 0..4u8 {
+                    if seen.insert((sig.clone(), arg_form)) {
+                        chains.push(Prog { table: table.clone(), start, borrow_mask: t.wrapping_mul(2654435761), arg_form, naming: 6 });
+                    }
+                }
+            }
+        }
+    }
+    let chains = &chains;
+    run.par("huge_growth_chains", true, |tid, n, l| {
+        for (i, p) in chains.iter().enumerate() {
+            if i % n != tid {
+                continue;
+            }
+            if run.stopped() {
+                return;
+            }
+            l.cases += 1;
+            if let Err(mut v) = check_prog(p, l) {
+                // keep the report small: the state strings are 'a' repeated 1, 2, 3, 2^26+1, 2^26+2 times
+                v.expected = v.expected.chars().take(300).collect();
+                v.observed = v.observed.chars().take(300).collect();
+                run.violate(v);
+                return;
+            }
+        }
+    });
     let mk = || {
         (1usize..=12).prop_flat_map(|k| {
             (vec(0u8..(k as u8 + 3), k), 0u8..k as u8, any::<u32>(), 0u8..4, 0u8..6)
